@@ -27,7 +27,8 @@ EXTENDS Integers, Sequences, FiniteSets, TLC
 
 CONSTANTS P,        \* prime
           NEQ,      \* number of data equations of the instances (2..3)
-          Variants  \* number of derived variants of the non-enumerated blocks
+          Variants, \* number of derived variants of the non-enumerated blocks
+          NShapes   \* number of shapes (drift functions, right-hand sides) taken from ShapeSeq
 
 -----------------------------------------------------------------------------
 (* GF(P) scalars and matrices (sequences of rows)                           *)
@@ -280,7 +281,8 @@ Derived(n, b, r, f, k) ==
       k |-> k]
 
 \* the shapes (number of drift functions b, right-hand sides r) of the identities
-Shapes == {<<1, 1>>, <<2, 1>>, <<1, 2>>, <<2, 2>>}
+ShapeSeq == << <<1, 1>>, <<2, 2>>, <<1, 2>>, <<2, 1>> >>
+Shapes == {ShapeSeq[i] : i \in 1..NShapes}
 
 -----------------------------------------------------------------------------
 (* The identities (Obs_fast = Obs_ref), each guarded by its side condition  *)
